@@ -1071,6 +1071,9 @@ func main() {
 		for i := 0; i < nBad; i++ {
 			c.badPush(i)
 		}
+		for i, n := 0, run.N(12, 100); i < n; i++ {
+			c.readersSideBySide(i)
+		}
 		b.Close()
 		if ki < 2 {
 			run.Sample("stack-pass", map[string]any{"stack": kind, "contents": nContents, "manifests": nManifests, "bad_pushes": nBad})
